@@ -198,6 +198,9 @@ def work(unit):
                            expected=base[1], tags={'relabelling': variant})
             wts = np.arange(1.0, len(combo) + 1)
             bw = result(bct.agreement_weighted, np.array(combo), wts)
+            expw = sum(w * np.equal.outer(c, c).astype(float) for w, c in zip(wts / wts.sum(), combo))
+            if bw[0] != 'ok' or not orc.close(np.asarray(bw[1], dtype=float), expw):
+                t.viol('agreement_weighted', 'weighted_co_assignment', case, observed=bw[1], expected=expw)
             rw = result(bct.agreement_weighted, np.array([c * 10 for c in combo]), wts)
             if not same_result(bw, rw):
                 t.viol('agreement_weighted', 'label_invariance', case, observed=rw[1], expected=bw[1])
